@@ -388,6 +388,40 @@ def keys_and_prefixes(ctx):
                 if q2 != q or c2 != compressed or (NETWORKS[net2].network_type == "main") != main:
                     st.violation("C06/wif/decode", {"wif": wif, "network": net}, (hex(q2), net2, c2), (hex(q), net, compressed))
                 st.nontrivial += 1
+    # ---- key spelling x explicit network: accepted exactly when the prefix the key was written with is one the network uses
+    from btclib import b32
+    from models import bip32_ref as B32
+    NETINFO = {"mainnet": (0x00, 0x05, "bc", True), "testnet": (0x6F, 0xC4, "tb", False), "testnet4": (0x6F, 0xC4, "tb", False),
+               "signet": (0x6F, 0xC4, "tb", False), "regtest": (0x6F, 0xC4, "bcrt", False)}
+    k, c = B32.master(bytes(range(16)))
+    K = B32.ser(B32.pub(k))
+    h = B32.h160(K)
+
+    def xkey(version, prv):
+        return A.b58check_encode(bytes.fromhex(version) + bytes(9) + c + (b"\x00" + k.to_bytes(32, "big") if prv else K))
+
+    spellings = {"hex": (K.hex(), None), "wif-main": (A.b58check_encode(b"\x80" + k.to_bytes(32, "big") + b"\x01"), True), "wif-test": (A.b58check_encode(b"\xef" + k.to_bytes(32, "big") + b"\x01"), False),
+                 "xpub": (xkey("0488B21E", False), True), "tpub": (xkey("043587CF", False), False), "xprv": (xkey("0488ADE4", True), True), "tprv": (xkey("04358394", True), False)}
+    for net in NETS:
+        if net not in NETINFO:
+            continue
+        pkh_v, sh_v, hrp, main = NETINFO[net]
+        exp_addr = {"p2pkh": A.b58check_encode(bytes([pkh_v]) + h), "p2wpkh": A.segwit_encode(hrp, 0, h),
+                    "p2wpkh_p2sh": A.b58check_encode(bytes([sh_v]) + B32.h160(b"\x00\x14" + h))}
+        for sp, (text, key_main) in spellings.items():
+            for fname, f in (("p2pkh", lambda kk, nn: b58.p2pkh(kk, nn)), ("p2wpkh", lambda kk, nn: b32.p2wpkh(kk, nn)), ("p2wpkh_p2sh", lambda kk, nn: b58.p2wpkh_p2sh(kk, nn))):
+                st.evals += 1
+                st.nontrivial += 1
+                should = key_main is None or key_main == main
+                try:
+                    got = f(text, net)
+                except errs:
+                    got = None
+                case = {"key": sp, "network": net, "address": fname}
+                if should and got != exp_addr[fname]:
+                    st.violation("C06/key-network/own-network-refused-or-wrong/" + sp, case, got, exp_addr[fname])
+                if not should and got is not None:
+                    st.violation("C06/key-network/foreign-network-accepted/" + sp, case, got, "refused")
     seed = bytes(range(16))
     for v in sorted(XPRV_VERSIONS_ALL):
         st.evals += 1
